@@ -215,7 +215,7 @@ def report_failure(r, runner, cid, ctx, prog, detail):
 def run(r):
     r.rule = ("typed random programs of the core fragment (depth <= 6, <= 40 nodes incl. ill-typed slots) x random contexts of "
               "ints/strings/bools/none/lists/pairs/maps; quick 3000, thorough 100000 programs + corpus; a case is non-trivial "
-              "when it is distinct and contains at least one control construct; every generated program is also run through one of 13 other "
+              "when it is distinct and contains at least one control construct; constant-foldable constructs (comparison chains of 3-4 small operands incl. in / not in links, arithmetic, concat, and/or/not, subscripts / attributes / filters on literal containers, if-expressions, filters / tests on literals) are emitted in three forms — operands as variables, as literals, mixed — as {{ e }}, if condition and loop filter, and all three must render the documented result; every generated program is also run through one of 13 other "
               "entry forms (top level of a child template of a layout that prints its assignments / calls its macros / renders an overridden block; "
               "module for from-import and import-as; include; render_captured + render_block / call_macro; Expression API; template_from_str; render_captured_to an io::Write; loader-backed environment; custom delimiters; custom formatter; debug off) against the "
               "reference semantics 'run P discarding its output, then the tail in the same top-level scope'")
@@ -271,6 +271,7 @@ def run(r):
     nfail = 0
     ncode = nvm = 0
     nfrag = nfragw = nbase = nwrap = 0
+    nlit = 0
     nvmm = 0
     for cid, ctx, prog, impl, mres, src, stats, realcode, modelcode, vmres, frag, vmmres in cases:
         is_wrap = prog.startswith("(wrap ")
@@ -332,6 +333,22 @@ def run(r):
         if re.search(r"\(i -?\d{10,}\)", ctx): r.hist["context_value_kinds"]["int beyond 32 bits (up to the i64 limits)"] += 1
         if " t)" in ctx or " f)" in ctx: r.hist["context_value_kinds"]["bool"] += 1
         if " none)" in ctx: r.hist["context_value_kinds"]["none"] += 1
+        # constant-foldable constructs are written with variable / literal / mixed operands between
+        # ⟦ ¦ ¦ ⟧: the documented result must be produced also when the engine decides to fold
+        # (that folding equals run-time evaluation in general is C04's property)
+        for k in kinds:
+            if k.startswith("literal-forms:"):
+                r.hist["literal_forms"][k.split(":", 1)[1]] += 1
+        if impl.startswith("ok:") and "\u27e6" in (out_txt := unhex(impl[3:])):
+            for seg in re.findall("\u27e6([^\u27e6\u27e7]*)\u27e7", out_txt):
+                forms = seg.split("\u00a6")
+                r.hist["literal_forms"]["triples rendered"] += 1
+                if len(forms) == 3 and not (forms[0] == forms[1] == forms[2]):
+                    r.hist["literal_forms"]["triples that differ"] += 1
+                    nlit += 1
+                    if nlit <= 3:
+                        r.oracle_failure(f"{ctx}\t{prog}", f"variable / literal / mixed form of one construct render differently: {forms} [source: {src}] (found as {cid})",
+                                         "literal-forms")
         verdict, detail = classify(impl, mres)
         r.hist["verdict"][verdict + (":" + detail if detail == "errkind" else "")] += 1
         if verdict == "same" and detail == "errkind" and impl != mres:
